@@ -29,6 +29,11 @@ CLAIMED = {
          'gin.config by random histories of finalize, nested unlock blocks (normal and raising exit), binds, registrations, clears and '
          'data-driven hooks, with an independent Python reference state machine judging the implementation.',
          BASE + 'Hooks are characterised by what they return or raise.'),
+ 'C20': ('Theorems clear_total / clear_pristine / clear_fields / clear_constants / clear_observationally_fresh (every continuation of '
+         'operations) / clear_idempotent hold for every state; tied to gin.config by random histories (binds, finalize, nested unlocks, '
+         'calls under scopes, singleton uses, colliding constants in interactive mode, failed operations) followed by clear_config and a '
+         'tail of observers and calls that is also run in a fresh interpreter with only the registrations.',
+         BASE + 'config_str / operative_config_str are compared structurally through the stores here; their text is C06/C07.'),
  'C08': ('Theorems inv_reachable / matching_spec / matching_nodup / getMatch_spec / getAll_spec hold for every history of '
          'insertions, removals and clears and every query; the trie mirror is tied to gin/selector_map.py by running the same random '
          'operation histories on both; an independent naive set-of-names oracle (incl. minimal_selector resolve-back and minimality, '
